@@ -245,6 +245,12 @@ let dispatch (cmd : string) (t : tree) : tree =
       let wdom (a, b) = L [w_q a; w_q b] in
       let (start, ds) = Bounds.fit_bounds est (r_bool update) k (rdom guess) (r_list robs steps) in
       L [wdom start; w_list wdom ds]
+  | "search_file", [nparts; sfx; ex; holds; cwd] ->
+      (* returns [0] unchanged | [1, k] found in the k-th given directory | [2] found in the working directory *)
+      (match Search.search (r_nat nparts) (r_bool sfx) (r_bool ex) (r_list r_bool holds) (r_bool cwd) with
+       | Search.Unchanged -> L [w_nat (nat_of_int 0)]
+       | Search.InGiven k -> L [w_nat (nat_of_int 1); w_nat k]
+       | Search.InCwd -> L [w_nat (nat_of_int 2)])
   | "select_rows", [req; rows] ->
       (* rows: per stored point a list of [] (missing) | [value]; returns [rows handed out, rows the former rule handed out] *)
       let rrow t = r_list (fun c -> match as_list c with [] -> None | [v] -> Some (r_z v) | _ -> failwith "cell") t in
